@@ -299,6 +299,7 @@ func verifCanary(label string, cond bool) {}
 //@   assigns held(&s.mu), released(&s.mu)
 //@   ensures [C29:found] err == nil ==> id < len(s.namespaces) && result0 == s.namespaces[id] && result0 != nil
 //@   ensures [C29:missing] err != nil ==> result0 == nil
+//@   canary ensures [C29:canary-always-found] err == nil
 
 //@ func (*AttributeService).Read
 //@   props C29
